@@ -274,8 +274,8 @@ func runWorldAfter(ds *DeclSet, spec string, argv []string, env EnvState, after 
 	r := runWorldBudget(ds, spec, argv, env, defaultStepBudget)
 	if r.p.End == EndBudget && r.p.Budget == "steps" {
 		// backtracking is exponential in the worst case by design: a step budget only nominates.
-		// Re-run with a budget 100 times larger before concluding anything.
-		r = runWorldBudget(ds, spec, argv, env, 100*defaultStepBudget)
+		// Re-run with a budget 25 times larger before concluding anything.
+		r = runWorldBudget(ds, spec, argv, env, 25*defaultStepBudget)
 		r.retried = true
 	}
 	return r
@@ -288,7 +288,9 @@ func runWorldBudget(ds *DeclSet, spec string, argv []string, env EnvState, budge
 	app := &AppDecl{Root: root, Policy: flag.ContinueOnError}
 	app.Finish()
 	p := NewProc(0)
-	p.StepBudget = budget
+	if !liftBudgets {
+		p.StepBudget = budget
+	}
 	var inst *Instance
 	RunProc(p, func() error {
 		inst = Build(app, p)
@@ -358,6 +360,12 @@ func (c12Prop) Exec(cc Case, st *Stats) *Violation {
 		st.Count("reach.step_budget_retry")
 	}
 	observed := map[string]interface{}{"world_A": describeEnd(a.p), "world_B": describeEnd(b.p)}
+	if !b.accepted && b.p.End == EndBudget && b.p.Budget == "steps" {
+		// Still searching after 25 times the step budget: slow is not rejected. Only a run alone with the budgets
+		// lifted decides (it ends in a verdict, or in "still backtracking", which is C03's subject and not this property's).
+		st.Count("reach.world_B_still_searching_after_25x_step_budget")
+		return &Violation{Clause: "budget-steps", Detail: "world B exceeded 25 times the step budget", Observed: observed, Nominate: true}
+	}
 	if !b.accepted {
 		d := "accepted with the variables unset, not accepted with a valid value set"
 		if c.Mode == "required-satisfied" {
